@@ -1,6 +1,8 @@
 import Driver.Util
+import Driver.Snapshot
 -- engines of work area Persist: import your Driver.<Engine> modules above and list them here
 namespace Driver.Reg.Persist
 def engines : List (String × IO UInt32) := [
+  ("snapshot", Driver.runEngine Driver.Snapshot.engine)
 ]
 end Driver.Reg.Persist
